@@ -76,10 +76,14 @@ def construct (π : Rat) (cls : String) (kwargs : List (String × Val)) : Except
         | none => pure acc) acc) ([] : List (String × Val))
   let fields ← (classChain c).foldlM (fun acc k =>
       match k.sinShift with
-      | some (flag, fld) =>
+      | some (flag, fld, degAlt) =>
         if truthy (lookupD acc flag (.bool false)) then
+          -- `np.pi/2`, or `n if <param> else np.pi/2`
+          let amount : Rat := match degAlt with
+            | some (p, n) => if truthy (lookupD env p (.bool false)) then n else π / 2
+            | none => π / 2
           match acc.lookup fld with
-          | some (.num z) => pure (dictSet fld (.num (z - ⟨π / 2, 0⟩)) acc)
+          | some (.num z) => pure (dictSet fld (.num (z - ⟨amount, 0⟩)) acc)
           | _ => throw Err.typeError
         else pure acc
       | none => pure acc) fields
@@ -178,7 +182,12 @@ def undictifyKwargs (circ : List (String × List (String × Val))) (s : SavedEle
   let kw := dictSet "reverse" (.bool s.rev) kw
   -- `{c['id']: c['value'] …}`: the last component with that id wins
   let kw := match (circ.reverse).lookup s.name with
-    | some vals => dictUpdate kw vals
+    | some vals =>
+      let kw := dictUpdate kw vals
+      -- `if 'phi' in circuit_dict[name]: kwargs.update({'deg': False, 'sin': False})` (when the code has it)
+      if Gen.undictifySteps.contains "clear_flags_if_phi" && (vals.lookup "phi").isSome then
+        dictSet "sin" (.bool false) (dictSet "deg" (.bool false) kw)
+      else kw
     | none => kw
   match Gen.loaderTypes.find? (·.typ = s.typ) with
   | none => pure ("Element", kw)
@@ -222,7 +231,10 @@ structure Placement where
   kwargs : List (String × Val)
   /-- `"right" | "left" | "up" | "down"` or `""` (no call) -/
   method : String
+  /-- `length*unit`, passed to the method unless `plain` -/
   length : Rat
+  /-- one-terminal symbol: the method is called without a length -/
+  plain : Bool := false
   /-- index (in the drawing so far) of the element named by `place_after` -/
   after : Option Nat
 deriving Repr, DecidableEq, Inhabited
@@ -260,7 +272,8 @@ def declarative (π : Rat) (unit : Rat) (elems : List (List (String × Val))) : 
     let len := match e.lookup "length" with | some (.num z) => z.re | _ => 1
     let method := (Gen.declDirections.lookup dir).getD ""
     -- `element.right(length*unit)`: schemdraw's one-terminal `Element.right()` takes no length
-    if method ≠ "" ∧ oneTerminal cls then throw Err.typeError
+    -- (before the repair: TypeError; now the method is called without a length)
+    if method ≠ "" ∧ oneTerminal cls ∧ Gen.declOneTerminalPlain = false then throw Err.typeError
     let after ← match e.lookup "place_after" with
       | none | some .none => pure none
       | some (.str l) =>
@@ -268,7 +281,7 @@ def declarative (π : Rat) (unit : Rat) (elems : List (List (String × Val))) : 
         | some i => pure (some i)
         | none => throw Err.valueError
       | some _ => throw Err.valueError
-    pure (acc.1 ++ [{ cls := cls, kwargs := kw, method := method, length := len * unit, after := after }],
+    pure (acc.1 ++ [{ cls := cls, kwargs := kw, method := method, length := len * unit, plain := oneTerminal cls, after := after }],
           acc.2 ++ [obj.name])) (([] : List Placement), ([] : List String))
   pure res.1
 
